@@ -411,5 +411,5 @@ def check(col: Collector):
                why="the penalty of a row is that of the active targets under the row's masks: a disabled target (whatever its value, NaN included) "
                    "contributes exactly 0")
     with col.rule():
-        shared(col, "C15.R5", [c10._limits], select=lambda o: construct_tag(o) == "trial-equals-commit",
+        shared(col, "C15.R5", [c10._limits], select=lambda o: construct_tag(o) in ("trial-equals-commit", "both-limit-sides"),
                why="the log row reads the merit function's last evaluation next to the committed knobs")
